@@ -386,26 +386,36 @@ func run(c Case) string {
 	if err != nil {
 		return ""
 	}
-	var operr error
-	var desc string
-	switch c.Op {
-	case "unserialize":
-		if p := oracle.Safely(func() { _, operr = sch.Unserialize(c.Raw.Go()) }); p != nil {
-			return "" // totality is C04's concern
+	// The same rejection is provoked three times on the one schema instance: the error a workflow author reads must
+	// not depend on what the schema rejected before (an error value kept and extended across calls would show here).
+	for rep := 1; rep <= 3; rep++ {
+		var operr error
+		var desc string
+		switch c.Op {
+		case "unserialize":
+			if p := oracle.Safely(func() { _, operr = sch.Unserialize(c.Raw.Go()) }); p != nil {
+				return "" // totality is C04's concern
+			}
+			desc = fmt.Sprintf("Unserialize(%s)", c.Raw)
+		case "validate":
+			mv, v := model.Convert(c.Spec, nil, c.Raw.Go())
+			if v != model.Accept {
+				return ""
+			}
+			native := model.ToNative(c.Spec, nil, mv)
+			if p := oracle.Safely(func() { operr = sch.Validate(native) }); p != nil {
+				return ""
+			}
+			desc = fmt.Sprintf("Validate(%#v)", native)
 		}
-		desc = fmt.Sprintf("Unserialize(%s)", c.Raw)
-	case "validate":
-		mv, v := model.Convert(c.Spec, nil, c.Raw.Go())
-		if v != model.Accept {
-			return ""
+		if rep > 1 {
+			desc = fmt.Sprintf("%s (repetition %d on the same schema instance)", desc, rep)
 		}
-		native := model.ToNative(c.Spec, nil, mv)
-		if p := oracle.Safely(func() { operr = sch.Validate(native) }); p != nil {
-			return ""
+		if msg := judgeErr(c, operr, desc); msg != "" {
+			return msg
 		}
-		desc = fmt.Sprintf("Validate(%#v)", native)
 	}
-	return judgeErr(c, operr, desc)
+	return ""
 }
 
 func judgeErr(c Case, operr error, desc string) string {
